@@ -1,7 +1,7 @@
 (** C17 — LRU caches evict in true LRU order; SplayTree is a correct ordered (multi)set.
     Statements only; proofs live in C17/LruProofs.v, C17/SplayProofs.v, C17/SplayRefine.v. *)
 From Coq Require Import List Arith Sorting.Permutation.
-From TLXV Require Import C17.Lru C17.LruProofs C17.LruRecency C17.Splay C17.SplayProofs C17.SplayRefine.
+From TLXV Require Import C17.Lru C17.LruProofs C17.LruRecency C17.LruSet C17.Splay C17.SplayProofs C17.SplayRefine.
 Import ListNotations.
 
 (** LruCacheMap / LruCacheSet (list_ + map_ model).  For every history of put, touch, touch_if_exists, get,
@@ -17,6 +17,27 @@ Theorem C17_lru_refines_reference : forall ops,
   Forall (fun x => fst x <> RPre) (snd (lrun lru_init ops)).
 Proof. exact lru_refines_reference. Qed.
 Print Assumptions C17_lru_refines_reference.
+
+(** LruCacheSet is a separate copy of the algorithm in lru_cache.hpp (std::list<Key>, pop() erasing the map entry by
+    key value, no get / get_touch).  Its own model (C17/LruSet.v: krun over klst / kidx / kbad) is, for EVERY
+    history -- valid or not --, the LruCacheMap model run with the unit value 0: same results, same recency list
+    after every operation, same three members at the end.  This is what entitles the correspondence driver to
+    compare the C++ LruCacheSet with the Map model (and the driver re-checks the equation on every case). *)
+Theorem C17_lruset_is_map_with_unit : forall ops,
+  lrun lru_init (map to_lop ops) = (emb (fst (krun kset_init ops)), emb_outs (snd (krun kset_init ops))).
+Proof. exact kset_is_map_with_unit. Qed.
+Print Assumptions C17_lruset_is_map_with_unit.
+
+(** hence LruCacheSet refines the reference LRU list over (key, 0) entries for every history respecting pop's
+    precondition; its class invariant holds (map_ = the keys of list_, each once; no stale iterator followed) *)
+Theorem C17_lruset_refines_reference : forall ops,
+  lvalid [] (map to_lop ops) = true ->
+  emb_outs (snd (krun kset_init ops)) = snd (lref_run [] (map to_lop ops)) /\
+  map unit_entry (klst (fst (krun kset_init ops))) = fst (lref_run [] (map to_lop ops)) /\
+  KInv (fst (krun kset_init ops)) /\
+  Forall (fun x => fst x <> RPre) (snd (krun kset_init ops)).
+Proof. exact kset_refines_reference. Qed.
+Print Assumptions C17_lruset_refines_reference.
 
 (** the reference throws exactly for absent keys, and pop removes the last element of the recency list (the
     key least recently put or touched, since put/touch move a key to the front: ref_put_front, ref_touch_front) *)
